@@ -31,7 +31,8 @@ pub fn gen_kdf(rng: &mut Rng) -> Kdf {
         k => Kdf::Argon2 {
             id: k == 2,
             version: *rng.pick(&[0x10u32, 0x13]),
-            memory: 1024 * rng.range(16, 64),
+            // the header stores bytes; KeePass divides by 1024 and drops the remainder
+            memory: 1024 * rng.range(16, 64) + if rng.chance(1, 2) { rng.below(1024) } else { 0 },
             iterations: rng.range(1, 3),
             parallelism: rng.range(1, 2) as u32,
             salt: rng.bytes(32),
@@ -322,8 +323,9 @@ pub struct Creds {
 pub fn gen_creds(rng: &mut Rng) -> Creds {
     let pw = if rng.chance(4, 5) { Some(rng.pick(&["demopass", "", "pässwörd", "a b ", "x"]).to_string()) } else { None };
     let kf = if pw.is_none() || rng.chance(1, 3) {
-        Some(match rng.below(3) {
+        Some(match rng.below(4) {
             0 => rng.bytes(32),
+            3 => rng.bytes_pick(&[65_536usize, 70_000, 131_073]),   // larger than any buffer a reader might cap at
             1 => rng.bytes(20),
             _ => format!("<KeyFile><Meta><Version>2.0</Version></Meta><Key><Data>{}</Data></Key></KeyFile>", hex::encode(rng.bytes(32))).into_bytes(),
         })
@@ -386,13 +388,24 @@ pub fn run_wf(ctx: &mut Ctx) {
 pub fn run_cred(ctx: &mut Ctx) {
     let count = ctx.count(60, 400);
     let edits_per = if ctx.thorough { 40 } else { 8 };
-    for _ in 0..count {
+    for fi in 0..count {
         let mut rng = ctx.rng.fork();
         let spec = gen_spec(&mut rng);
-        let creds = gen_creds(&mut rng);
+        let mut creds = gen_creds(&mut rng);
+        if fi % 8 == 7 {
+            creds.kf = Some(rng.bytes_pick(&[65_537usize, 70_000, 131_073]));   // larger than any buffer a reader might cap at
+        }
         let comp = ref_composite(&creds.pw, &creds.kf).unwrap();
         let layout = gen_layout(&mut rng, &spec);
-        let data = kdbx::build_kdbx4(&spec, &layout, &comp).unwrap();
+        let data = if fi % 4 == 3 {
+            // written by the library itself under these credentials (whatever key it derives from them)
+            let db = Database::new(DatabaseConfig { kdf_config: KdfConfig::Aes { rounds: 3 }, ..Default::default() });
+            let mut buf = Vec::new();
+            db.save(&mut buf, make_key(&creds.pw, &creds.kf)).unwrap();
+            buf
+        } else {
+            kdbx::build_kdbx4(&spec, &layout, &comp).unwrap()
+        };
         for _ in 0..edits_per {
             let (pw2, kf2, what) = edit_creds(&mut rng, &creds);
             let comp2 = ref_composite(&pw2, &kf2);
@@ -413,7 +426,9 @@ pub fn run_cred(ctx: &mut Ctx) {
 fn edit_creds(rng: &mut Rng, c: &Creds) -> (Option<String>, Option<Vec<u8>>, &'static str) {
     let pw = c.pw.clone();
     let kf = c.kf.clone();
-    match rng.below(12) {
+    match rng.below(14) {
+        12 => (pw, kf.map(|mut k| { if let Some(l) = k.last_mut() { *l ^= 1 << rng.below(8); } else { k.push(1); } k }).or(Some(vec![1u8; 33])), "keyfile-last-byte-flip"),
+        13 => (pw, kf.map(|mut k| { if k.len() > 1 { k.pop(); } else { k.push(7); } k }).or(Some(vec![2u8; 31])), "keyfile-one-byte-shorter-or-longer"),
         0 => (pw.map(|p| format!("{} ", p)), kf, "trailing-blank"),
         1 => (pw.map(|p| format!("{}x", p)), kf, "append-char"),
         2 => (pw.map(|p| { let mut cs: Vec<char> = p.chars().collect(); if !cs.is_empty() { cs.remove(0); } else { cs.push('y'); } cs.into_iter().collect() }), kf, "delete-or-add-first-char"),
@@ -525,6 +540,39 @@ pub fn run_tamper(ctx: &mut Ctx) {
                 continue;
             }
             emit_read(ctx, "tamper", &m, Some(&comp), &key, json!({"mutation": what, "original": orig}), vec![format!("mutation:{}", what)], true);
+        }
+    }
+    // sweep: every single-byte substitution at a few offsets inside an attachment of an uncompressed, stream-enciphered
+    // payload (any accepted substitution would change the attachment): exercises the whole block MAC, not one byte of it
+    {
+        let mut rng = ctx.rng.fork();
+        let mut spec = gen_spec(&mut rng);
+        spec.kdf = Kdf::Aes { rounds: 1, seed: rng.bytes(32) };
+        spec.outer = Outer::ChaCha20;
+        spec.iv = rng.bytes(12);
+        spec.compress = false;
+        let content: Vec<u8> = (0..48u8).map(|i| 0xA0 ^ i).collect();
+        spec.attachments = vec![(1, content.clone())];
+        let creds = gen_creds(&mut rng);
+        let comp = ref_composite(&creds.pw, &creds.kf).unwrap();
+        let key = make_key(&creds.pw, &creds.kf);
+        let mut layout = gen_layout(&mut rng, &spec);
+        layout.block_sizes = vec![];
+        let data = kdbx::build_kdbx4(&spec, &layout, &comp).unwrap();
+        let orig = observe(&data, &key);
+        let un = kdbx::unwrap_kdbx4(&data, &comp).unwrap();
+        let ih = kdbx::inner_header(&spec, &layout);
+        if let Some(p) = ih.windows(content.len()).position(|w| w == &content[..]) {
+            let base = un.header.len() + 64 + 36 + p;
+            let noffs = if ctx.thorough { 12 } else { 3 };
+            for oi in 0..noffs {
+                let off = base + (oi * 4) % content.len();
+                for mask in 1..=255u8 {
+                    let mut d = data.clone();
+                    d[off] ^= mask;
+                    emit_read(ctx, "tamper", &d, Some(&comp), &key, json!({"mutation": "attachment-byte-sweep", "original": orig}), vec!["mutation:attachment-byte-sweep".into()], true);
+                }
+            }
         }
     }
 }
